@@ -7,6 +7,8 @@ From GoCar Require Import Bytes Varint Cid Header Frame V2Header Scan Val RunSca
    srckind: 0 bytes.Reader, 1 *os.File, 2 plain io.Reader (counting, chunked),
             3 counting Read+ReadByte+Seek, 4 counting Read+Seek.
    The high-water mark is observable for kinds 2..4 only (printed as 0 otherwise).
+   observation: (tok version roots pos0 hw0 steps end kept) -- kept: the returned blocks / *BlockMetadata
+   read again after the walk.
    expect: (tvalid blocks base payload_len) | (ttrunc nonboundary [blocks base payload_len]) | (tnone) *)
 Definition brpos_seek (k : N) : bool := negb (k =? 2).
 Definition brpos_hwobs (k : N) : bool := 2 <=? k.
@@ -18,6 +20,14 @@ Definition v_step (hwobs : bool) (s : step) : val :=
   match s with
   | StN c d pos hw => VL [VT "N"; VB c; VB d; VN pos; h hw]
   | StS m pos hw => VL (VT "S" :: v_meta m ++ [VN pos; h hw])
+  end.
+
+(* what a kept result reads as after the walk: the model's step list is a value, so this is the
+   same data again (without the position fields) *)
+Definition v_step_kept (s : step) : val :=
+  match s with
+  | StN c d _ _ => VL [VT "N"; VB c; VB d]
+  | StS m _ _ => VL (VT "S" :: v_meta m)
   end.
 
 Definition run_brpos (input : val) : val :=
@@ -38,7 +48,27 @@ Definition run_brpos (input : val) : val :=
         | None => VL [VT "stop"]
         | Some EEof => VL [VT "err"; v_err EEof; VN (p_pos fin); h (p_hw fin)]
         | Some e => VL [VT "err"; v_err e]
-        end]
+        end;
+        VL (map v_step_kept steps)]
+  end.
+
+Fixpoint val_eqb (fuel : nat) (a b : val) : bool :=
+  match fuel with
+  | O => false
+  | S f =>
+    match a, b with
+    | VN x, VN y => x =? y
+    | VB x, VB y => bytes_eqb x y
+    | VT x, VT y => String.eqb x y
+    | VL x, VL y =>
+        (fix go (l1 l2 : list val) : bool :=
+           match l1, l2 with
+           | [], [] => true
+           | u :: l1', v :: l2' => val_eqb f u v && go l1' l2'
+           | _, _ => false
+           end) x y
+    | _, _ => false
+    end
   end.
 
 (* layer-B predicate on the implementation's observation of a walk over a constructed valid
@@ -103,7 +133,19 @@ Definition prop_brpos (input obs : val) : val :=
                  || (is_tag (vnth 1 endv) "eof" && ((lim <? vN (vnth 2 endv)) || (lim <? vN (vnth 3 endv)))))
     | None => false
     end in
-  if over then fail1 "consumed-past-payload"
+  (* the results handed out during the walk, read again after it, must be what they were when
+     they were returned (8th part of the observation vs the steps) *)
+  let kept_same :=
+    (fix go (ss ks : list val) : bool :=
+       match ss, ks with
+       | [], [] => true
+       | s :: ss', k :: ks' =>
+           let isn := is_tag (vnth 0 s) "N" in
+           val_eqb 40 k (VL (firstn (if isn then 3 else 5) (vL s))) && go ss' ks'
+       | _, _ => false
+       end) steps (vL (vnth 7 obs)) in
+  if opened && negb kept_same then fail1 "metadata-changed-after-return"
+  else if over then fail1 "consumed-past-payload"
   else if is_tag (vnth 0 expect) "valid" then
     let bs := vblocks (vnth 1 expect) in
     let base := vN (vnth 2 expect) in
@@ -210,25 +252,6 @@ Definition run_inspect (input : val) : val :=
         else VL [VT "none"];
         tscan;
         VL (map v_out (fst hist))]
-  end.
-
-Fixpoint val_eqb (fuel : nat) (a b : val) : bool :=
-  match fuel with
-  | O => false
-  | S f =>
-    match a, b with
-    | VN x, VN y => x =? y
-    | VB x, VB y => bytes_eqb x y
-    | VT x, VT y => String.eqb x y
-    | VL x, VL y =>
-        (fix go (l1 l2 : list val) : bool :=
-           match l1, l2 with
-           | [], [] => true
-           | u :: l1', v :: l2' => val_eqb f u v && go l1' l2'
-           | _, _ => false
-           end) x y
-    | _, _ => false
-    end
   end.
 
 Definition stat_names : list string :=
